@@ -2,6 +2,7 @@
 import hashlib
 
 from vf import histories, shadow, sim as S
+from vf.checks import c01
 from vf.ref import groups, ikecrypto
 
 import crypto as r_crypto
@@ -15,7 +16,7 @@ RULE = ('differential against an independent implementation (hashlib/hmac + pyth
         'MODPDH/ECDH objects: public value = fixed-width g^x, shared secret = fixed-width peer^x for random peers AND a directed search for '
         'peer values whose secret has a leading zero octet; (e) IkeSa.generate_ike_sa_key_material / generate_child_sa_key_material called '
         'for every PRF x INTEG x AES key length with random nonces of 16..256 octets, initial and rekey (old SK_d, old PRF); (f) end to end: '
-        'in simulated histories every SKEYSEED-derived keyring and every key inside a NEWSA request equals what the reference derives '
+        'in simulated histories (the two sides list the CHILD algorithms in opposite preference orders; plus exchanges that cross each other) every SKEYSEED-derived keyring and every key inside a NEWSA request equals what the reference derives '
         'from the wire and the tapped DH private value (initial, piggy-backed CHILD, CREATE_CHILD with and without PFS, rekeyed IKE_SA). '
         'distinct = (what, algorithm ids, length class).')
 ASSUMPTIONS = ['primality / security of the groups is out of reach: only equality with the published definitions is observed',
@@ -217,8 +218,11 @@ def run(ck):
                 rng2 = ck.rng('e2e', n)
                 other_p = rng2.choice(histories.PRF)
                 child_dh = [rng2.choice(['19', '14', '20', '21'])] if n % 2 else []
+                other_e = 'aes128' if e == 'aes256' else 'aes256'
+                other_i = rng2.choice([x for x in histories.INTEG if x != i])
+                # the two sides list the CHILD algorithms in OPPOSITE preference order: the negotiated suite is the responder's first choice
                 kw = dict(ike_a={'encr': [e], 'integ': [i], 'prf': [p, other_p], 'dh': [d]}, ike_b={'encr': [e], 'integ': [i], 'prf': [other_p, p], 'dh': [d]},
-                          child_a={'encr': [e], 'integ': [i], 'dh': child_dh}, child_b={'encr': [e], 'integ': [i], 'dh': child_dh},
+                          child_a={'encr': [e, other_e], 'integ': [i, other_i], 'dh': child_dh}, child_b={'encr': [other_e, e], 'integ': [other_i, i], 'dh': child_dh},
                           v6=bool(n % 5 == 0), auth='psk', mode='transport' if n % 3 else 'tunnel', ipsec_proto='ah' if n % 7 == 0 else 'esp', dpd=600, lifetime=3600)
                 sim, a, b = S.make_pair(base + n, **kw)
                 sim.case = {'n': n, 'conf': kw}
@@ -231,10 +235,20 @@ def run(ck):
                 if n % 30 == 1:
                     ck.sample({'conf': kw, 'history': tags, 'derivations': [list(map(str, x)) for x in sh.events][:8]})
 
+    crossing(ck)
+
+
+def crossing(ck):
+    # exchanges that cross each other (each side derives KEYMAT for its own request while answering the peer's, with PFS)
+    for w in range(60 if not ck.thorough() else 1500):
+        if ck.mine(w):
+            c01.run_crossing(ck, w, ck.seed * 1000003 + 9901)
+
 
 def verdict(ck):
     c = ck.counters
     t = ck.thorough()
+    ck.floor('crossing-exchange walks', c['crossing.walks'], 40)
     ck.floor('prf+ lengths compared', c['prfplus.lengths_compared'], 3000)
     ck.floor('MODP primes compared with the RFC 3526 formula', c['constants.modp_compared'], 5)
     ck.floor('secrets with a leading zero octet fed to compute_secret', c['dh.leading_zero_secrets'], 3)
